@@ -1251,10 +1251,16 @@ protected:
       // body is computed then dropped; Content-Length (reflecting the body a GET
       // would return) is preserved for a 2xx/4xx representation. For a bodyless
       // status (304/204) drop any contradictory body Content-Length (SR-18).
-      if (req.method == HttpMethod::HEAD)
+      // RFC 9110 §6.4.1: a 1xx, 204 or 304 response has no content for ANY method,
+      // and a recipient frames it as ending at the empty line (RFC 9112 §6.3), so
+      // a body left in res (e.g. the pre-seeded 404 text, or a representation set
+      // before the handler chose 304) must not reach the wire either.
+      const bool bodylessStatus =
+        (res.status >= 100 && res.status < 200) || res.status == 204 || res.status == 304;
+      if (req.method == HttpMethod::HEAD || bodylessStatus)
       {
         res.body.clear();
-        if (res.status == 204 || res.status == 304)
+        if (bodylessStatus)
         {
           res.headers.erase("Content-Length");
         }
